@@ -23,6 +23,7 @@ from simkit.harness import Check, bump, new_result, rng_for, violation
 from simkit.net import Policy
 
 from gallia.command.uds import UDSScanner, UDSScannerConfig
+from gallia.db.handler import DBHandler
 from gallia.services.uds.core import service
 from gallia.services.uds.core.client import UDSRequestConfig
 from gallia.services.uds.core.exception import ResponseException
@@ -239,6 +240,11 @@ class C11(Check):
         else:
             calls = [i for i, s in enumerate(hist) if "pdu" in s]
             plan["crash"] = {"kind": rng.choice(["exception", "sigint"]), "at": rng.choice(calls), "delay": rng.choice([0.0, 0.0005, 0.002, 0.01, 0.05, 0.2])}
+        if plan["crash"] is None and pdus and rng.random() < 0.12:
+            # Ctrl-C while the handler is being closed: it lands in disconnect() while rows are still queued behind a slow database
+            plan["crash"] = {"kind": "sigint_sync", "at": -1, "delay": rng.choice([0.0, 0.001, 0.01, 0.06, 0.3])}
+            plan["db_lat"] = rng.choice([0.02, 0.05])
+            plan["tp"] = None
         plan["artifacts"] = rng.random() < 0.3
         plan["log_off_at_start"] = rng.random() < 0.15  # like SASeedsDumper: implicit_logging = False in the constructor
         # separate configuration: transient "database is locked" errors on row inserts (another process reads the database);
@@ -382,6 +388,16 @@ class C11(Check):
             await orig_finish()
 
         cmd._db_finish_run_meta = finish  # type: ignore[method-assign]
+        orig_disc = DBHandler.disconnect
+
+        async def disc(self_: Any) -> None:
+            q_ = getattr(self_, "_execute_queue", None)
+            rec.rec("db_disconnect_begin", queued=q_.qsize() if q_ is not None else 0)
+            if plan["crash"] and plan["crash"]["kind"] == "sigint_sync":
+                world.sigint_at(world.loop.time() + plan["crash"]["delay"], cmd.sig_fired)
+            await orig_disc(self_)
+
+        world.seams.set(DBHandler, "disconnect", disc)
         cmd.sig_fired = []  # type: ignore[attr-defined]
 
         async def main() -> int:
@@ -409,11 +425,18 @@ class C11(Check):
         call_end_seq: dict[int, int] = {}
         sig_t = cmd.sig_fired[0] if cmd.sig_fired else None  # type: ignore[attr-defined]
         fin_t = next((e[1] for e in ev if e[3] == "db_finish_begin"), None)
+        disc_ev = next((e for e in ev if e[3] == "db_disconnect_begin"), None)
         if sig_t is not None and fin_t is not None and sig_t >= fin_t - 1e-9:
-            # Ctrl-C while the handler is being closed: outside "after the handler is closed" - counted, not judged
-            bump(res["probes"], "sigint_during_db_close_not_judged")
-            res["shape"] = "sigint-during-db-close"
-            return
+            if disc_ev is None or sig_t < disc_ev[1] - 1e-9:
+                # Ctrl-C before the close of the handler has begun (while the run meta is completed): the handler is never
+                # closed then, which is outside "after the handler is closed" - counted, not judged
+                bump(res["probes"], "sigint_during_run_meta_update_not_judged")
+                res["shape"] = "sigint-during-run-meta-update"
+                return
+            # Ctrl-C while disconnect() runs: every exchange was completed before, so every row is mandatory
+            bump(res["probes"], "sigint_while_the_handler_is_being_closed")
+            if disc_ev[4].get("queued", 0) > 0:
+                bump(res["probes"], "sigint_while_rows_are_still_queued_at_close")
         for e in ev:
             seq, t, actor, kind, d = e
             if kind == "call_begin":
